@@ -84,6 +84,28 @@ Proof.
 Qed.
 Print Assumptions bounded_state.
 
+(** [bounded_state] lifted to EVERY reachable state: after any frame history whatsoever the
+    defragmenter still has exactly its configured number of slots, every slot buffer has its
+    fixed size and every active slot tracks at most MAX_FRAMES frames. *)
+Theorem bounded_state_every_history :
+  forall (B : Type) (dflt : B) (n : nat) (fs : list (frame B)),
+    n <> 0%nat ->
+    let qs := srun (defrag_new dflt n) fs in
+    length qs = n /\
+    forall i q, nth_error qs i = Some q ->
+      length (q_buf q) = N.to_nat MAX_PACKET_SIZE /\
+      (q_idle q = false -> (length (q_mask q) <= N.to_nat MAX_FRAMES)%nat).
+Proof.
+  intros B dflt n fs Hn qs. subst qs.
+  rewrite <- (drun_srun fs (defrag_new dflt n) (repeat [] n)).
+  assert (Hne : defrag_new dflt n <> []) by (unfold defrag_new; destruct n; [congruence|discriminate]).
+  destruct (drun_inv fs _ _ (DInv_new dflt n) Hne) as ((_ & DQ) & Hl).
+  split; [rewrite Hl; unfold defrag_new; apply repeat_length|].
+  intros i q Hq. specialize (DQ i q Hq). split; [apply (qi_len _ _ DQ)|].
+  intros Hi. eapply mask_bounded. apply (qi_act _ _ DQ Hi).
+Qed.
+Print Assumptions bounded_state_every_history.
+
 (** "it is emitted whenever all its frames arrive before its slot is reclaimed, regardless
     of reordering": the frames Fragmenter::send produces for a multi-frame packet, in ANY
     order, into the slot initialised for that packet, are all accepted, and exactly the frame
